@@ -98,6 +98,8 @@ def run(check):
                 # the working directory changes between building the file cache and parsing; in the second variant the same relative
                 # path below the new working directory holds a different tree (every plugin source renamed)
                 ("rel+chdir-before-parse", {"cache": "context", "dir": "ctx", "rel_dir": True, "chdir": "one/two", "chdir_before_parse": "three/x/y"}),
+                # the files change on disk after the cache was loaded and the same cache object is loaded again
+                ("reloaded-after-change", {"cache": "context", "stale": True}),
                 ("rel+chdir-before-parse+decoy", {"cache": "context", "dir": "ctx", "rel_dir": True, "chdir": "one/two", "chdir_before_parse": "p/q/r", "decoy": True})]
     metas = {}
     for i in range(n):
@@ -106,10 +108,12 @@ def run(check):
         case, sem = runfam.build_case("c20-%04d-direct" % i, g)
         items.append(case)
         metas[case["id"]] = (g, sem, "direct", i)
-        vs = variants if not check.quick() else rng.sample(variants, 4)
+        vs = variants if not check.quick() else rng.sample(variants, 5)
         for vname, eng in vs:
             for rep in range(2 if vname == "abs" else 1):
                 eng = dict(eng)
+                if eng.get("stale") is True:
+                    eng["stale"] = {name: text.replace("src: ", "src: old_").replace('"src": "', '"src": "old_') for name, text in g["program"].files().items()}
                 if eng.get("decoy") is True:
                     eng["decoy"] = {name: text.replace("src: ", "src: decoy_").replace('"src": "', '"src": "decoy_') for name, text in g["program"].files().items()}
                 c = {"id": "c20-%04d-%s-%d" % (i, vname, rep), "mode": "engine", "files": g["program"].files(), "scripts": g["scripts"], "runs": [{"input": g["input"]}],
